@@ -237,7 +237,7 @@ def payload(res, facts):
             # zero-entry path of the loop style: nothing to map
             pass
         for kd, vd, conds in mappings:
-            key_ok = kd in ("entry.key",) or bool(re.match(r"key\d+@\d+$", kd))
+            key_ok = kd in ("entry.key",) or bool(re.match(r"\*?key\d+@\d+$", kd))
             val_ok = bool(re.search(r"^to_value$|^\$?to_value|Value::Null", vd)) or vd in ("to_value",)
             if not key_ok:
                 problems.append("entry stored under %s instead of the claim's key" % kd)
